@@ -83,6 +83,7 @@ def chunks(tier):
     out += [("M", i) for i in range(len(BALANCED) + len(UNBALANCED))]
     out += [("I", i) for i in range(len(BALANCED))]
     out += [("HC", k) for k in range(len(FIRST_OPS))]
+    out += [("NI",)]
     return out
 
 
@@ -133,6 +134,11 @@ def _substances(names, comp):
 
 
 CHARGE_BY_KEYWORD = ("e-", "B-", "Fe+3", "OH-")
+# species with non-integral composition numbers (CaSO4 hemihydrate) and reactions among them (the last two are unbalanced)
+NI_COMP = {"W": {1: 2, 8: 1}, "G": {20: 1, 16: 1, 8: 4}, "Gh": {20: 1, 16: 1, 8: 4.5, 1: 1}, "Gd": {20: 1, 16: 1, 8: 6, 1: 4}}
+NI_RXNS = [({"Gh": 2, "W": 3}, {"Gd": 2}), ({"Gh": 2}, {"G": 2, "W": 1}), ({"Gd": 1}, {"G": 1, "W": 2}), ({"G": 1, "Gd": 1}, {"Gh": 2, "W": 1}),
+           ({"Gh": 2, "W": 2}, {"Gd": 2}), ({"Gh": 1}, {"G": 1, "W": 1})]
+NI_OK = [True, True, True, True, False, False]
 
 
 def _mk_system(rxn_dicts, names, comp, params=None):
@@ -213,6 +219,7 @@ def check_invariants(res, rs, rxn_dicts, names, comp, case, with_ode=True):
 
     bad = []
     res.evaluations += 1
+    inexact = any(isinstance(v, float) for n in names for v in comp[n].values())
     B_exp = [[comp[n].get(k, 0) for n in names] for k in sorted({k for n in names for k in comp[n]})]
     keys_exp = sorted({k for n in names for k in comp[n]})
     try:
@@ -260,7 +267,7 @@ def check_invariants(res, rs, rxn_dicts, names, comp, case, with_ode=True):
             if list(odesys.names) != list(names):
                 bad.append(("odesys.names", list(odesys.names), list(names)))
             li = odesys.linear_invariants
-            li = [] if li is None else [list(map(int, r)) for r in (li.tolist() if hasattr(li, "tolist") else li)]
+            li = [] if li is None else [[(int(x) if float(x) == int(x) else float(x)) for x in r] for r in (li.tolist() if hasattr(li, "tolist") else li)]
             if li != B_exp:
                 bad.append(("odesys.linear_invariants", li, B_exp))
             for row in B_exp:
@@ -294,6 +301,8 @@ def check_invariants(res, rs, rxn_dicts, names, comp, case, with_ode=True):
                         bad.append(("linear_dependencies(%r) eliminated" % (pref,), sorted(dep_name[k] for k in ex), pref))
                     for dep, expr in ex.items():
                         rel = sympy.expand(dep - expr)
+                        if inexact:  # float composition numbers: chempy row-reduces in floats, 2/3 comes back as 0.666666666666667
+                            rel = sympy.expand(sympy.nsimplify(rel, rational=True, tolerance=1e-12))
                         # rel must vanish at y = y0 and be a combination of the invariants B (y - y0)
                         at0 = sympy.expand(rel.subs({d: y0[d] for d in odesys.dep}))
                         v = [rel.coeff(d) for d in odesys.dep]
@@ -396,6 +405,24 @@ def run_chunk(chunk, tier):
         res.sample(dict(layer="M", first=first, unbalanced=first >= len(BALANCED)))
     elif kind == "HC":
         check_history_of_constructions(res, chunk[1])
+    elif kind == "NI":
+        # non-integral composition numbers (hemihydrate): balance decisions, invariants and analytic eliminations alike
+        names_all = list(NI_COMP)
+        for i, rx in enumerate(NI_RXNS):
+            for extra in [()] + [(j,) for j in range(len(NI_RXNS)) if j != i and NI_OK[j]]:
+                rxl = [NI_RXNS[i]] + [NI_RXNS[j] for j in extra]
+                if sum(1 for r_ in rxl if not NI_OK[NI_RXNS.index(r_)]) > 1:
+                    continue
+                for order in (1, -1):
+                    used = set(k for r_, p_ in rxl for k in list(r_) + list(p_))
+                    names = [n for n in names_all[::order] if n in used]
+                    case = dict(layer="NI", i=i, extra=list(extra), order=order)
+                    rs = check_construction(res, rxl, names, NI_COMP, case, "non-integral")
+                    if rs is not None:
+                        check_invariants(res, rs, rxl, names, NI_COMP, case, with_ode=True)
+                        for kpat in range(2):
+                            check_integration(res, rxl, names, NI_COMP, KPAT[kpat], dict(case, kpat=kpat))
+        res.sample(dict(layer="NI", species={k: {str(a): b for a, b in v.items()} for k, v in NI_COMP.items()}, reactions=len(NI_RXNS)))
     elif kind == "I":
         first = chunk[1]
         # (a reaction that consumes a species through an inactive coefficient keeps consuming it at zero concentration:
@@ -515,6 +542,10 @@ def replay(case):
         sub = Result()
         check_history_of_constructions(sub, case["k"])
         res.violations = [v for v in sub.violations if v["case"]["i"] == case["i"]]
+    elif L == "NI":
+        sub = run_chunk(("NI",), "quick")
+        want = {k: case.get(k) for k in ("i", "extra", "order")}
+        res.violations = [v for v in sub.violations if {k: v["case"].get(k) for k in want} == want and v["case"].get("kpat") == case.get("kpat")]
     elif L == "M":
         allr = BALANCED + UNBALANCED
         rx = [allr[i] for i in case["seq"]]
